@@ -46,19 +46,17 @@ SrcKind(f) == IF f[8] = 0 THEN "rec" ELSE "clip"
 SrcN(k)   == IF k.src = "rec" THEN k.N ELSE LenNum(k) \div k.tden
 SrcOff(k) == IF k.src = "rec" THEN 0 ELSE OffNum(k) \div k.tden
 
-RecCases  == {Mk("rec", f, 0, 0, "rec", 0, 0, 0) : f \in ClipFiles}
-ClipCases == UNION {{Mk("clip", f, p[1], p[2], "clip", 0, 0, 0) :
-                        p \in {q \in (0..MaxTick(f)) \X (0..MaxTick(f)) : q[1] <= q[2]}} : f \in ClipFiles}
-SpecCases == UNION {{Mk("spec", f, f[7], f[8], SrcKind(f), p[1], p[2], 0) :
-                        p \in {q \in (1..MaxW) \X (1..MaxW) : q[2] <= q[1]}} : f \in SpecSrcs}
-ResCases  == {k \in {Mk("resamp", f, f[7], f[8], SrcKind(f), 0, 0, tg) : f \in ResSrcs, tg \in Targets} :
-                 (SrcN(k) * k.target) \div Sr(k) <= MaxNum}
-
 m0 == [off |-> 0, len |-> 0, pos |-> 0, rows |-> <<>>, t0 |-> 0, d |-> <<>>, step |-> 0,
        fd |-> <<>>, fstep |-> 0, np0 |-> 0, np |-> 0, nov |-> 0, num |-> 0, raised |-> ""]
 
-Init == /\ c \in RecCases \cup ClipCases \cup SpecCases \cup ResCases
-        /\ pc = "start" /\ m = m0
+\* (quantifiers instead of  c \in RecCases \cup ClipCases ...: TLC enumerates them without building the big set)
+Init == /\ pc = "start" /\ m = m0
+        /\ \/ \E f \in ClipFiles : c = Mk("rec", f, 0, 0, "rec", 0, 0, 0)
+           \/ \E f \in ClipFiles : \E e \in 0..MaxTick(f) : \E s \in 0..e : c = Mk("clip", f, s, e, "clip", 0, 0, 0)
+           \/ \E f \in SpecSrcs : \E w \in 1..MaxW : \E h \in 1..w : c = Mk("spec", f, f[7], f[8], SrcKind(f), w, h, 0)
+           \/ \E f \in ResSrcs : \E tg \in Targets :
+                 LET k == Mk("resamp", f, f[7], f[8], SrcKind(f), 0, 0, tg)
+                 IN  (SrcN(k) * k.target) \div Sr(k) <= MaxNum /\ c = k
 
 Stay == UNCHANGED c
 Iota(n) == [i \in 1..n |-> i - 1]
@@ -76,7 +74,7 @@ ClipArith == /\ pc = "start" /\ c.kind = "clip"
 SeekFail  == /\ pc = "seek" /\ m.off > c.N /\ ~SeekClamp               \* libsndfile: psf_fseek() failed
              /\ m' = [m EXCEPT !.raised = "LibsndfileError"]
              /\ pc' = "raised" /\ Stay
-Seek      == /\ pc = "seek" /\ (m.off <= c.N \/ SeekClamp)
+Seek      == /\ pc = "seek" /\ ~(m.off > c.N /\ ~SeekClamp)           \* (written without a disjunction: TLC would split the action)
              /\ m' = [m EXCEPT !.pos = Min(m.off, c.N)]
              /\ pc' = "read" /\ Stay
 Read      == /\ pc = "read"                                            \* fp.read(frames=samples, fill_value=0)
@@ -88,7 +86,7 @@ Read      == /\ pc = "read"                                            \* fp.rea
 AxisEmpty == /\ pc = "axis" /\ m.len = 0 /\ ~EmptyGuard
              /\ m' = [m EXCEPT !.raised = "IndexError"]
              /\ pc' = "raised" /\ Stay
-Axis      == /\ pc = "axis" /\ (m.len > 0 \/ EmptyGuard)
+Axis      == /\ pc = "axis" /\ ~(m.len = 0 /\ ~EmptyGuard)
              /\ LET cnt  == m.len
                     drop == cnt > 0 /\ 2 * (m.off + cnt - 1) >= 2 * (m.off + m.len) - 1
                 IN  m' = [m EXCEPT !.t0 = m.off, !.d = Iota(IF drop THEN cnt - 1 ELSE cnt), !.step = 1]
@@ -98,7 +96,7 @@ Axis      == /\ pc = "axis" /\ (m.len > 0 \/ EmptyGuard)
 ResArith == /\ pc = "start" /\ c.kind = "resamp"
             /\ m' = [m EXCEPT !.num = (SrcN(c) * c.target) \div Sr(c), !.t0 = SrcOff(c)]   \* int(times.size * target * step)
             /\ pc' = "res" /\ Stay
-ResRaise == /\ pc = "res" /\ (m.num < 1 \/ SrcN(c) < 2)                \* scipy: num must be positive; t[1] of a 1-sample axis
+ResRaise == /\ pc = "res" /\ ~(m.num >= 1 /\ SrcN(c) >= 2)                \* scipy: num must be positive; t[1] of a 1-sample axis
             /\ m' = [m EXCEPT !.raised = "ValueError"]
             /\ pc' = "raised" /\ Stay
 \* scipy: new_t = arange(num) * (t[1]-t[0]) * Nx/num + t[0]; unit 1/(sr*num*target): d_i = i*Nx*target, 1/target = sr*num
@@ -115,7 +113,7 @@ SpecArith == /\ pc = "start" /\ c.kind = "spec"
                                    !.nov = ((c.w - c.h) * Sr(c)) \div c.tden,           \* int((window_size - hop_size) * samplerate)
                                    !.t0  = SrcOff(c)]
              /\ pc' = "triage" /\ Stay
-SpecRaise == /\ pc = "triage" /\ (m.np0 < 1 \/ m.nov >= m.np)          \* nperseg must be positive / noverlap must be less than nperseg
+SpecRaise == /\ pc = "triage" /\ ~(m.np0 >= 1 /\ m.nov < m.np)          \* nperseg must be positive / noverlap must be less than nperseg
              /\ m' = [m EXCEPT !.raised = "ValueError"]
              /\ pc' = "raised" /\ Stay
 \* zero extension by np/2 on both sides, zero padding to a whole number of hops, one frame per hop;
@@ -150,6 +148,19 @@ Q_SpecSrcs == {<<8, 1, 1, 32, 1, 12, 0, 0>>, <<8, 1, 1, 32, 2, 16, 10, 50>>, <<8
 Q_ResSrcs  == {<<8, 1, 1, 32, 1, 12, 0, 0>>, <<8, 1, 1, 32, 2, 16, 10, 50>>, <<8, 2, 1, 64, 1, 7, 0, 0>>, <<10, 1, 1, 40, 1, 9, 0, 0>>,
                <<44100, 1, 1, 176400, 1, 12, 0, 0>>}
 Q_Targets  == {1, 2, 3, 4, 5, 6, 7, 8, 9, 10, 12, 16, 20, 22050, 44100, 48000}
+
+\* thorough tier
+T_ClipFiles == {<<8, 1, 1, 32, 1, 16>>, <<8, 1, 1, 32, 2, 7>>, <<8, 1, 1, 32, 3, 1>>, <<16, 1, 2, 32, 2, 9>>, <<4, 2, 1, 32, 1, 6>>,
+                <<8, 2, 1, 64, 3, 8>>, <<16, 1, 1, 64, 1, 10>>, <<8000, 1, 1, 256, 1, 130>>, <<8000, 1, 1, 1024, 2, 40>>,
+                <<8, 10, 1, 320, 1, 6>>, <<10, 1, 1, 40, 2, 8>>, <<10, 1, 2, 20, 1, 5>>, <<44100, 1, 1, 176400, 1, 5>>,
+                <<22050, 2, 1, 176400, 2, 4>>, <<22050, 1, 1, 88200, 3, 6>>, <<4410, 10, 1, 176400, 1, 4>>}
+T_SpecSrcs == {<<8, 1, 1, 32, 1, 20, 0, 0>>, <<8, 1, 1, 32, 2, 24, 10, 70>>, <<8, 2, 1, 64, 1, 16, 0, 0>>, <<16, 1, 2, 32, 1, 12, 5, 41>>,
+               <<8, 1, 1, 32, 1, 2, 0, 0>>, <<8, 1, 1, 32, 1, 5, 0, 0>>, <<10, 1, 1, 40, 1, 16, 4, 60>>, <<22050, 1, 1, 88200, 1, 20, 0, 0>>,
+               <<44100, 1, 1, 176400, 2, 16, 6, 62>>, <<8, 10, 1, 320, 1, 14, 0, 0>>}
+T_ResSrcs  == {<<8, 1, 1, 32, 1, 12, 0, 0>>, <<8, 1, 1, 32, 2, 16, 10, 50>>, <<8, 2, 1, 64, 1, 7, 0, 0>>, <<16, 1, 2, 32, 1, 11, 0, 0>>,
+               <<10, 1, 1, 40, 1, 9, 0, 0>>, <<10, 1, 1, 40, 2, 12, 6, 46>>, <<44100, 1, 1, 176400, 1, 12, 0, 0>>,
+               <<22050, 1, 1, 88200, 1, 30, 8, 100>>, <<8000, 1, 1, 256, 1, 130, 0, 0>>, <<8, 10, 1, 320, 1, 9, 0, 0>>}
+T_Targets  == (1..24) \cup {30, 32, 40, 64, 80, 100, 4000, 8000, 11025, 16000, 22050, 32000, 44100, 48000, 96000}
 
 (* ---- Impl => Req ---- *)
 ImplClipRefinesReq == (pc = "done" /\ c.kind = "clip") => ClipReqI(c, m.len, m.t0, m.rows, m.d)
